@@ -296,6 +296,19 @@ def run (st : St) (args : List Str) (impl : String) : St × String × String × 
   | [c, a] =>
     if c = str "cfg" then ({ mock := a = str "mock" ∨ a = str "mockid", genIds := a = str "mockid", pfx := a = str "badgerp" }, "ok", "-", "triv-cfg")
     else if c = str "veto" then ({ st with veto := a = str "on" }, "ok", "-", "triv-veto")
+    else if c = str "untyped" then
+      -- a second, untyped store under its own prefix: the outcome of create / update with a value of the
+      -- wrong type (a named map type, a string) / value / create with the wrong type, by the store model
+      let cls (r : StoreMap.Res Val) : String := match r with | .ok => "ok" | .err e => encErr e | _ => "other"
+      let s0 : StoreMap.St Val := ⟨[], false, false⟩
+      let good : Val := ⟨str "a", str "1"⟩
+      let (r1, c1, s1) := StoreMap.exec s0 a (.create good true)
+      let (r2, c2, s2) := StoreMap.exec s1 a (.update good false)
+      let (r3, c3, s3) := StoreMap.exec s2 a (.update good false)
+      let (r4, c4, s4) := StoreMap.exec s3 (a ++ str ".2") (.create good false)
+      let kept := (aget s3.vals a) == (aget s1.vals a) && (aget s1.vals a).isSome
+      let o := s!"create={cls r1} update-named={cls r2} update-string={cls r3} value={if kept then encField (str "{\"a\":1}") else "changed"} create-named={cls r4} exists={encBool (aget s4.vals (a ++ str ".2")).isSome} cbs={(c1 ++ c2 ++ c3 ++ c4).length}"
+      (st, o, o, "untyped")
     else if c = str "slow" then (st, "ok", "-", "triv-slow")
     else if c = str "delete" then
       let (o, st', tag) := mutate st a .delete
